@@ -845,15 +845,12 @@ func monitorScriptVars(api string, script *AJ, vars map[string]string) []string 
 			}
 			if got, want := vars[kv.K], asset.S+" "+digits; got != want {
 				tag := "[script-amount-inexact]"
-				if api == "v2" && form == "number" {
-					tag = "[scriptv1-float64-amount]"
-				}
 				out = append(out, fmt.Sprintf("%s script variable %s: monetary amount %s given as JSON %s became %q, expected %q %s", api, kv.K, digits, form, got, want, tag))
 			}
 		case v.K == 'n' && v.E == nil && api == "v2":
 			got := vars[kv.K]
 			if back, ok := new(big.Rat).SetString(got); !ok || !back.IsInt() || back.Num().Cmp(v.M) != 0 {
-				out = append(out, fmt.Sprintf("v2 script variable %s: number %s became %q [scriptv1-float64-number]", kv.K, v.M, got))
+				out = append(out, fmt.Sprintf("v2 script variable %s: number %s became %q [script-number-inexact]", kv.K, v.M, got))
 			}
 		}
 	}
